@@ -722,6 +722,8 @@ def canon_before_intern(ctx, rid, f, exempt=None):
                 parg = vs[0]
                 break
         if parg is None:
+            parg = _cursor_of(e)
+        if parg is None:
             key = (f.name, e.get('name'))
             ok = exempt is not None and key in exempt
             ctx.check(rid, ok, f.name, 'intern-non-variable:%s' % e.get('name'), f.where(e),
@@ -781,6 +783,17 @@ def canon_before_intern(ctx, rid, f, exempt=None):
     return n
 
 
+def _cursor_of(e):
+    """An element reached through a cursor (`*it` of an iterator loop - also what the reference parameter of a for_each lambda
+    becomes once it is inlined): the cursor variable stands for the element."""
+    for a in e.get('args', []):
+        for x in walk(a):
+            if isinstance(x, dict) and ((x.get('k') == 'call' and x.get('op') == '*' and isinstance(strip(x.get('recv')), dict) and strip(x['recv']).get('k') == 'var') or
+                                        (x.get('k') == 'un' and x.get('op') == '*' and isinstance(strip(x.get('e')), dict) and strip(x['e']).get('k') == 'var')):
+                return strip(x.get('recv') if x.get('k') == 'call' else x.get('e'))
+    return None
+
+
 def intern_site_status(f, e):
     """Status of ONE call of an interning function (State::GetNode, ...): ('canon', var, None) when the path variable
     passes CanonicalizePath on every way from each of its definitions; ('param', var, None) when it is the enclosing
@@ -793,6 +806,8 @@ def intern_site_status(f, e):
         if vs:
             parg = vs[0]
             break
+    if parg is None:
+        parg = _cursor_of(e)
     if parg is None:
         return 'nonvar', None, None
     v = parg['n']
